@@ -348,7 +348,8 @@ PROPS["C15"] = {
     "pkg": "c15", "level": "exploration",
     "technique": "property-based round-trip and corruption testing (rapid): every stored type is serialised with its documented encoder, restored with its documented decoder, "
                  "compared structurally and used in a follow-up protocol run; encodings are corrupted at tree level (one CBOR node selected by path: null, absent, wrong type, "
-                 "zero/truncated/extended bytes, identity point, out-of-range integers, duplicated/dropped entries, sibling copies) and at byte level; oracle = error, or an object "
+                 "zero/truncated/extended bytes, identity point, out-of-range integers, duplicated/dropped entries, sibling copies) and at byte level, and every entry of every "
+                 "array-encoded party list is duplicated (identical copy appended / first, copy with another party's data) for every owner of the configuration, which must be refused; oracle = error, or an object "
                  "satisfying the validity predicate of the statement; whole sessions are also run with every wire message crossing Message.MarshalBinary/UnmarshalBinary",
     "level_text": "8 types (cmp.Config, frost.Config, frost.TaprootConfig, doerner.ConfigSender/Receiver, ecdsa.PreSignature, ecdsa.Signature, protocol.Message) for n in 2..4 and "
                   "all t. Restored objects must be equivalent, must work together with the other parties' originals in a later signing session (independent verifier), and "
@@ -364,12 +365,14 @@ PROPS["C15"] = {
             {"run": "^TestCorrupt$", "checks": 24000, "shards": 8},
             {"run": "^TestRoundTrip$", "checks": 320, "shards": 8},
             {"run": "^TestWireRoundTrip$", "checks": 200, "shards": 2},
+            {"run": "^TestDuplicateParty$", "shards": 1},
         ],
         "thorough": [
             {"fuzz": "FuzzRestore", "fuzztime": "180s", "workers": 8, "timeout": 600},
             {"run": "^TestCorrupt$", "checks": 1200000, "shards": 12},
             {"run": "^TestRoundTrip$", "checks": 12000, "shards": 12},
             {"run": "^TestWireRoundTrip$", "checks": 8000, "shards": 4},
+            {"run": "^TestDuplicateParty$", "shards": 1},
         ],
     },
 }
@@ -405,7 +408,8 @@ PROPS["C04"] = {
     "pkg": "c04", "level": "fault_enumeration",
     "technique": "fault injection through the real handlers on the deterministic simulator, driven by rapid: (1) wire-level value alterations, value copies and whole-message "
                  "substitutions of every field of every message kind of every protocol by one cheater, (2) state-level deviations of a CMP presigner applied through a round "
-                 "proxy (wrong gamma, k, x, delta share, chi share, sigma share) in the offline, full and online variants; oracles: O1 no honest party is ever named by a "
+                 "proxy (wrong gamma, k, x, delta share, chi share, sigma share) in the offline, full and online variants, (3) one Paillier ciphertext of one direct message replaced by a "
+                 "well-formed ciphertext of the plaintext plus one (keygen/refresh share, MtA D/F); oracles: O1 no honest party is ever named by a "
                  "self-detected error, O2 catalogued verified-on-receipt fields are attributed to exactly the sender, O3 every honest signer singles out the deviating presigner",
     "level_text": "The cheater is run by the library's own handler (authentic headers, queues and echo-broadcast hashes); its outgoing messages are altered at one CBOR leaf "
                   "(another valid point/scalar/number, or the same field of another message) or its round state is edited around Finalize. Relayed abort notices are excluded "
@@ -421,12 +425,18 @@ PROPS["C04"] = {
             {"run": "^TestWireCheap$", "checks": 4000, "shards": 4},
             {"run": "^TestWireCMP$", "checks": 48, "shards": 12, "timeout": 2400},
             {"run": "^TestDeviations$", "checks": 16, "shards": 8, "timeout": 2400},
+            {"run": "^TestCtDeviations$", "shards": 10, "timeout": 2400},
+            {"run": "^TestEquivocationCheap$", "checks": 600, "shards": 2},
+            {"run": "^TestEquivocationCMP$", "checks": 12, "shards": 12, "timeout": 2400},
         ],
         "thorough": [
             {"run": "^TestWalkCatalogue$", "shards": 16, "timeout": 9000},
             {"run": "^TestWireCheap$", "checks": 120000, "shards": 6},
             {"run": "^TestWireCMP$", "checks": 1600, "shards": 16, "timeout": 9000},
             {"run": "^TestDeviations$", "checks": 640, "shards": 16, "timeout": 9000},
+            {"run": "^TestCtDeviations$", "shards": 16, "timeout": 9000},
+            {"run": "^TestEquivocationCheap$", "checks": 30000, "shards": 4},
+            {"run": "^TestEquivocationCMP$", "checks": 320, "shards": 16, "timeout": 9000},
         ],
     },
 }
@@ -435,14 +445,16 @@ PROPS["C03"] = {
     "pkg": "c03", "level": "fault_enumeration",
     "technique": "fault injection through the real handlers on the deterministic simulator, driven by rapid and (thorough) a systematic walk over every field: one participant's "
                  "outgoing messages are altered at one CBOR leaf (another valid value, the same field of another recipient's / sender's message) or replaced by the message "
-                 "meant for another recipient or round, or the presigner deviates at state level; oracle = no honest party finishes with a result that an independent verifier "
+                 "meant for another recipient or round, or the presigner deviates at state level, or one Paillier ciphertext of one direct message is replaced by a well-formed "
+                 "ciphertext of the plaintext plus one (keygen share, MtA D/F); oracle = no honest party finishes with a result that an independent verifier "
                  "rejects or that is inconsistent with the other honest finishers",
     "level_text": "All protocols (cmp keygen/refresh/sign/presign offline, full, online; frost keygen/refresh/sign in both variants; doerner keygen/refresh/sign), n in 2..4 "
                   "(CMP 2..3), every cheater position, abort notices delivered or lost, generated schedules. Honest finishers' signatures are verified with the reference "
                   "ECDSA/Schnorr/BIP-340 verifiers under the dealer-known key; key material of finishers must agree on group key and public table, match own shares, and a "
                   "refresh must keep the key.",
-    "level_note": "Broadcasts are altered identically for all recipients (equivocation is C06). The cheater is run by the real handler, so altered broadcasts also trip the "
-                  "echo-broadcast check; both detection paths are legitimate outcomes for this property.",
+    "level_note": "Wire-level alterations of a broadcast are the same for all recipients; per-recipient alteration of a broadcast is exercised with the twin construction "
+                  "shared with C06 (two individually valid, differently randomised versions of the cheater, each facing a part of the honest parties). The cheater is run by "
+                  "the real handler, so altered broadcasts also trip the echo-broadcast check; both detection paths are legitimate outcomes for this property.",
     "rule": "case = (protocol, n, round, message kind, generic field path, leaf kind, alteration kind, outcome summary of the honest parties); non-trivial iff the alteration was "
             "applied to a message that was really sent; distinct = distinct class keys",
     "assumptions": ["authenticated channels", "reference verifiers correct"],
@@ -450,9 +462,15 @@ PROPS["C03"] = {
         "quick": [
             {"run": "^TestCheap$", "checks": 4000, "shards": 4},
             {"run": "^TestCMP$", "checks": 48, "shards": 12, "timeout": 2400},
+            {"run": "^TestCtDeviations$", "shards": 16, "timeout": 2400},
+            {"run": "^TestEquivocationCheap$", "checks": 600, "shards": 2},
+            {"run": "^TestEquivocationCMP$", "checks": 12, "shards": 12, "timeout": 2400},
         ],
         "thorough": [
+            {"run": "^TestEquivocationCheap$", "checks": 30000, "shards": 4},
+            {"run": "^TestEquivocationCMP$", "checks": 320, "shards": 16, "timeout": 9000},
             {"run": "^TestWalk$", "shards": 16, "timeout": 9000},
+            {"run": "^TestCtDeviations$", "shards": 16, "timeout": 9000},
             {"run": "^TestCheap$", "checks": 120000, "shards": 6},
             {"run": "^TestCMP$", "checks": 1600, "shards": 16, "timeout": 9000},
         ],
@@ -480,6 +498,7 @@ PROPS["C05"] = {
             {"run": "^TestCheap$", "checks": 6000, "shards": 6},
             {"run": "^TestDoerner$", "checks": 1200, "shards": 4},
             {"run": "^TestCMP$", "checks": 60, "shards": 12, "timeout": 2400},
+            {"run": "^TestSweepAbort$", "shards": 16, "timeout": 2400},
         ],
         "thorough": [
             {"fuzz": "FuzzAccept", "fuzztime": "240s", "workers": 8, "timeout": 800},
